@@ -511,10 +511,10 @@ def judge_damaged(f, recs, st):
     for i, (kind, val) in enumerate(items):
         if kind == "tree":
             if i >= len(trees):
-                if raised and i < len(items) and any(k != "tree" for k in kinds[i:]):
-                    # error surfaced before all earlier trees were delivered (chunked decoding)
-                    if "undecodable" in kinds:
-                        return viols
+                if raised and not complete:
+                    # the file is not decodable as a whole: the text layer decodes in chunks,
+                    # so the error may surface before earlier, intact groups were delivered
+                    return viols
                 viols.append(cm.viol("C01/damaged/%s/well-formed-group-lost" % fmt,
                                      group=i, yielded=len(trees), raised=raised,
                                      damage=f["damage"]))
